@@ -27,9 +27,9 @@ CLAIMED = {
         "§6 C03",
     ),
     "C05": (
-        "Lean 4 theorems about the dual-variant model of map_gmm_m_step (Spec = Reynolds eq. 11-13, Code = pinned commit): blend formulas, normalisation, non-negativity, no-evidence branch, limits r->inf / r->0+ (Filter.Tendsto), exact Code-vs-Spec deviation and its refutation witness; Float model vs implementation correspondence accepting either variant",
+        "Lean 4 theorems about the dual-variant model of map_gmm_m_step (Spec = Reynolds eq. 11-13, Code = pinned commit): blend formulas, normalisation, non-negativity, no-evidence branch, limits r->inf / r->0+ (Filter.Tendsto), exact Code-vs-Spec deviation and its refutation witness; monotonicity of the relevance-penalised likelihood under means-only adaptation (EM lower bound + penalised weighted least squares, one and any number of iterations); Float model vs implementation correspondence accepting either variant",
         "Proof: adapted means/weights are the stated relevance blends (weights renormalised to the simplex), Spec variances are the blended second moment minus the squared new mean and are >= 0, components without evidence keep the prior, limits in the relevance factor; the code's variance deviates by exactly (1-a)(mu0^2 - mu0) (known finding D3, refuted in Lean with the witness replayed on the code). Tie: one M-step over all switch combinations, starved components, relevance 1e-6..1e6, fixed ratios incl. 0 and 1; two-iteration fit chained through the model.",
-        "Real arithmetic. The penalised-likelihood monotonicity clause (C05_map_means_monotone in DESIGN.md) is not proved yet: partial. Known finding D3 is reported as KNOWN-FINDING, any other deviation is a VIOLATION.",
+        "Real arithmetic. C05_map_means_monotone assumes that no component is below the count threshold (there the code returns the prior mean). Known finding D3 is reported as KNOWN-FINDING, any other deviation is a VIOLATION.",
         "§6 C05",
     ),
     "C06": (
@@ -69,9 +69,9 @@ CLAIMED = {
         "§6 C14",
     ),
     "C07": (
-        "Lean 4 theorems: every enrolment block update (speaker factors y, all per-session channel factors x_h, residual offset z) is the maximiser of the joint log-posterior logPost in its block (generic block_max lemma = concave quadratic maximisation, instantiated by rearranging the model's sums), hence one sweep and the whole enrolment are monotone in logPost for ISV and JFA, any number of sessions, fractional counts; normal equations of each block; Exec (Vector) = Spec; Float model vs update_y / compute_latent_x / update_z / enroll and the model's logPost vs an independent NumPy evaluation",
-        "Proof for all UBMs with positive variances, all U, V, D, all lists of enrolment statistics with non-negative counts and every number of iterations: logPost (enroll k) <= logPost (enroll (k+1)). Partial: uniqueness of the mode / fixed point = mode / convergence of the iterates are not proved in Lean; they are decided by the search (joint mode by solving the joint linear system, contraction of the log-posterior gap over 40/400/4000 iterations).",
-        "Real arithmetic; np.linalg.inv is a parameter (contract: exact inverse). Convergence clause partial (search only). Found and fixed D7.",
+        "Lean 4 theorems: every enrolment block update (speaker factors y, all per-session channel factors x_h, residual offset z) is the maximiser of the joint log-posterior logPost in its block (generic block_max lemma = concave quadratic maximisation, instantiated by rearranging the model's sums), hence one sweep and the whole enrolment are monotone in logPost for ISV and JFA, any number of sessions, fractional counts; existence and uniqueness of the joint mode, fixed point of the iteration <-> mode (joint stationarity from block stationarity, JointMax/EnrollMode); normal equations of each block; Exec (Vector) = Spec; Float model vs update_y / compute_latent_x / update_z / enroll and the model's logPost vs an independent NumPy evaluation",
+        "Proof for all UBMs with positive variances, all U, V, D, all lists of enrolment statistics with non-negative counts and every number of iterations: logPost (enroll k) <= logPost (enroll (k+1)). Also proved: logPost is a strictly concave quadratic of the flattened latent vector (logPost_joint), so the joint mode exists and is unique (C07_mode_exists_unique); a latent state is a fixed point of the enrolment iteration iff it is that mode (C07_fixed_point_is_mode, C07_mode_is_fixed_point); the log-posterior values converge (C07_posterior_converges). Convergence of the iterates: one iteration contracts the gap to the mode by q = 1 - 1/(6|P|_F^2+1) < 1 (gs3_contraction: three exact block maximisations of a quadratic with precision P >= I), so gap_k <= q^k gap_0 and |latent_k - mode|^2 <= 2 q^k gap_0 (C07_enroll_converges_to_mode, C07_enroll_tendsto_mode). The property is proved in full over the reals; the search (joint mode by solving the joint linear system, gap contraction over 40/400/4000 iterations) runs against the Float implementation.",
+        "Real arithmetic; np.linalg.inv is a parameter (contract: exact inverse). Found and fixed D7.",
         "§6 C07",
     ),
     "C11": (
@@ -93,9 +93,9 @@ CLAIMED = {
         "§6 C19",
     ),
     "C16": (
-        "Lean 4 theorems: history independence of every seeded fit in a model of the random-number plumbing (which generator each trainer draws from; the unseeded i-vector case is shown to depend on history), invariance of GMM ML / k-means training (all iterates, criterion, iteration count) under List.Perm of the samples, WCCN under permutations of samples and any injective class renaming; the model's provenance keys executed on real in-process histories: equal keys must give bit-identical models",
+        "Lean 4 theorems: history independence of every seeded fit in a model of the random-number plumbing (which generator each trainer draws from; the unseeded i-vector case is shown to depend on history), invariance of GMM ML / k-means training (all iterates, criterion, iteration count) under List.Perm of the samples, WCCN under permutations of samples and any injective class renaming, ISV and JFA training (all three phases) under any reordering of the classes and of the sessions inside each class; the model's provenance keys executed on real in-process histories: equal keys must give bit-identical models",
         "Proof for all histories of global seedings / draws / earlier fits, all sample permutations and class renamings. Tie: random histories over k-means, GMM, ISV, JFA (in-memory and Dask), WCCN, i-vector fits; permuted / renamed / re-historied refits on the implementation.",
-        "dask_ml's seeded data-dependent initialisation is not modelled: its row-order dependence is known finding D14 (KNOWN-FINDING line, corpus witness). ISV/JFA sample-order / class-renaming clauses are checked by the search only until the training model (C09) is built.",
+        "dask_ml's seeded data-dependent initialisation is not modelled: its row-order dependence is known finding D14 (KNOWN-FINDING line, corpus witness).",
         "§6 C16",
     ),
     "C04": (
@@ -123,9 +123,9 @@ CLAIMED = {
         "§6 C12",
     ),
     "C15": (
-        "Lean 4 theorems: log-likelihood shifts by -sum log|a|, responsibilities invariant, statistics transform as N, aF+bN, a^2 S+2abF+b^2 N, ML M-step equivariant (floors transformed, no count floor active), MAP Spec means/variances equivariant and the pinned variance blend refuted (a = 2), linear scores invariant, channel-factor posterior invariant under the transformed ISV/JFA model, k-means assignments invariant under uniform scale + shift and distances under orthogonal maps; metamorphic original-vs-transformed runs on the implementation",
+        "Lean 4 theorems: log-likelihood shifts by -sum log|a|, responsibilities invariant, statistics transform as N, aF+bN, a^2 S+2abF+b^2 N, ML M-step equivariant (floors transformed, no count floor active), MAP Spec means/variances equivariant and the pinned variance blend refuted (a = 2), linear scores invariant, channel-factor posterior invariant under the transformed ISV/JFA model, every enrolment iterate (y, all x_h, z) invariant, i-vector posterior mean invariant, ISV/JFA training and fixed-covariance i-vector training equivariant, k-means assignments invariant under uniform scale + shift and distances under orthogonal maps; metamorphic original-vs-transformed runs on the implementation",
         "Proof for all per-feature scales a != 0 and shifts b (k-means: all similarities). Tie: the kernels involved are tied to the code by C01-C03, C05-C08, C10, C11; here the log-likelihood and E-step kernels are re-run on transformed inputs (negative and widely different scales) and the metamorphic relations are observed on the implementation for likelihoods, ML/MAP training, linear scoring, ISV/JFA latents-scores-client means, i-vectors and k-means under rotations.",
-        "Real arithmetic. Known finding: MAP variance update not equivariant (D3, KNOWN-FINDING with a corpus witness). y, z latent invariance and i-vector invariance are observed on the implementation (same algebra as C15_latent_invariant; not separately proved).",
+        "Real arithmetic. Known finding: MAP variance update not equivariant (D3, KNOWN-FINDING with a corpus witness). ISV / JFA training (all phases, any number of iterations) and i-vector training with fixed covariances are proved equivariant (U, V, D, T rows follow the features); i-vector training with update_sigma is observed on the implementation only (its scalar variance floor is not scale-free).",
         "§6 C15",
     ),
 }
